@@ -186,7 +186,9 @@ CHECKS = {
              "required arguments, directive locations, field-exists / leaf-selection, type conditions, and the whole field "
              "node; and ACCEPTANCE CHARACTERISED (accepted_characterised): accepted <-> every node of every selection tree "
              "satisfies the specification's node predicates with the scope handed down /\\ acyclic /\\ unique names /\\ lone "
-             "anonymous /\\ spread targets defined /\\ fragments used /\\ five rule functions quiet. The check "
+             "anonymous /\\ spread targets defined /\\ fragments used /\\ five rule functions quiet; single root field "
+             "(Proofs/SingleRoot.v): a subscription whose reachable root fields -- through inline fragments and spreads, "
+             "however often written -- share ONE response key is not refused. The check "
              "generates structured valid documents (fragment DAGs with sharing, several named operations reaching shared "
              "fragments by different routes, variables only inside fragments, directives in all 7 executable locations, "
              "meta-fields and introspection selections, identical repeated fields, one-key subscriptions) on generated schemas; "
@@ -221,7 +223,8 @@ CHECKS = {
              "required argument, misplaced directive; acceptance is the conjunction of all rules being quiet; and "
              "C07_violating_document_refused: a document with any node violating a node predicate at any depth, a cyclic "
              "fragment graph, a repeated name, a second anonymous operation, an undefined spread target or an unused fragment "
-             "is not accepted. Two "
+             "is not accepted; a subscription reaching two different root response keys through fields and inline fragments at "
+             "any nesting is reported by single-root-field and the document is not accepted (C07_two_root_keys_refused). Two "
              "recorded findings (known_findings.json) are attributed by Coq-evaluated region predicates. PARTIAL: completeness "
              "of the other rules at every site is decided per document, not proved.",
         note="Trusted: as C06. Documents with non-executable definitions are outside the document model (engine side only).",
